@@ -634,6 +634,21 @@ func (e *SpecEnv) evalCall(x SCall) SV {
 		m, k := arg(0), arg(1)
 		dom, _, _, _ := e.G.TE.MapHeaps(m.Typ)
 		return SV{Term: fmt.Sprintf("(and (not (= %s nil)) (select (select %s %s) %s))", m.Term, e.Cur.Heap(dom), m.Term, k.Term), Typ: boolT}
+	case "ioFailed":
+		fail, _, _, _, _, _ := ioHeaps(e.G)
+		return SV{Term: e.Cur.Heap(fail), Typ: boolT}
+	case "isOpen":
+		_, open, _, _, _, _ := ioHeaps(e.G)
+		return SV{Term: fmt.Sprintf("(select %s %s)", e.Cur.Heap(open), e.refOf(arg(0))), Typ: boolT}
+	case "openCount":
+		_, _, count, _, _, _ := ioHeaps(e.G)
+		return SV{Term: e.Cur.Heap(count), Typ: intT}
+	case "zipHas":
+		_, _, _, zdom, _, _ := ioHeaps(e.G)
+		return SV{Term: fmt.Sprintf("(select %s %s)", e.Cur.Heap(zdom), arg(0).Term), Typ: boolT}
+	case "zipData":
+		_, _, _, _, zdata, _ := ioHeaps(e.G)
+		return SV{Term: fmt.Sprintf("(select %s %s)", e.Cur.Heap(zdata), arg(0).Term), Typ: types.NewSlice(types.Typ[types.Byte])}
 	case "encCount":
 		// number of values accepted by xml Encode so far (ghost)
 		n, _ := encHeaps(e.G)
